@@ -83,6 +83,7 @@ type CacheCfg struct {
 	MemSize    int    `yaml:"mem_size,omitempty"`
 	MaximumTTL int    `yaml:"maximum_ttl,omitempty"`
 	IpMarker   string `yaml:"ip_marker,omitempty"`
+	Redis      string `yaml:"redis,omitempty"`
 }
 
 type ECSCfg struct {
